@@ -329,8 +329,16 @@ func init() {
 		e.block("WaitGroup.Wait", func() bool { return m.readers == 0 })
 		return nil
 	})
+	// sync.Pool reuses: Get hands back the most recently Put value (the
+	// behaviour under which state leaking through a pooled object shows)
 	reg("(*sync.Pool).Get", func(e *Exec, args []Value, fn *ssa.Function) Value {
 		p := args[0].(Ptr)
+		k := mutexKey{p.o, p.off}
+		if st := e.pools[k]; len(st) > 0 {
+			v := st[len(st)-1]
+			e.pools[k] = st[:len(st)-1]
+			return v
+		}
 		fp, ft := e.fieldPtr(p, e.pkgType("sync", "Pool"), "New")
 		f := e.load(fp, ft)
 		if _, isNil := f.(FuncNil); isNil {
@@ -338,7 +346,14 @@ func init() {
 		}
 		return e.call(f, nil, nil)
 	})
-	reg("(*sync.Pool).Put", nop)
+	reg("(*sync.Pool).Put", func(e *Exec, args []Value, fn *ssa.Function) Value {
+		p := args[0].(Ptr)
+		if v, ok := args[1].(Iface); ok && v.t != nil {
+			k := mutexKey{p.o, p.off}
+			e.pools[k] = append(e.pools[k], v)
+		}
+		return nil
+	})
 	reg("(*sync.Cond).Wait", func(e *Exec, args []Value, fn *ssa.Function) Value {
 		p := args[0].(Ptr)
 		lp, lt := e.fieldPtr(p, e.pkgType("sync", "Cond"), "L")
